@@ -95,6 +95,22 @@ def quaternion (eig : Mat4 α → List (α × Vec4 α)) (eps : α) (P Q : List (
     | none => .error .indexError
     | some (_, q) => .ok (Gen.quat_rot q.w q.x q.y q.z) -- q0, q1, q2, q3 = U[:, indmax]; U[i, j] = …
 
+/-- what the theorems assume of `V, s, Wt = np.linalg.svd(A)`: `A = V·diag(s)·Wt`, `V` and `Wt` orthogonal
+    (both products), `s₁ ≥ s₂ ≥ s₃ ≥ 0`.  No rank assumption. -/
+structure SvdContract [LE α] (A V : Mat3 α) (s : Vec3 α) (Wt : Mat3 α) : Prop where
+  factor : A = (V.mul (Mat3.diag s.x s.y s.z)).mul Wt
+  orthV : V.mul V.T = Mat3.one ∧ V.T.mul V = Mat3.one
+  orthW : Wt.mul Wt.T = Mat3.one ∧ Wt.T.mul Wt = Mat3.one
+  order : s.y ≤ s.x ∧ s.z ≤ s.y ∧ 0 ≤ s.z
+
+/-- what the theorems assume of the pair `(l[indmax], U[:, indmax])` of `np.linalg.eig(F)`: a unit
+    eigenvector whose eigenvalue dominates the quadratic form of `F` (= is the largest eigenvalue;
+    `Proofs.Quat.eigContract_of_decomposition` derives it from an orthogonal eigendecomposition). -/
+structure EigContract [LE α] (F : Mat4 α) (lam : α) (q : Vec4 α) : Prop where
+  eigen : F.mulVec q = ⟨lam * q.w, lam * q.x, lam * q.y, lam * q.z⟩
+  unit : Vec4.dot q q = 1
+  top : ∀ r : Vec4 α, Mat4.quad F r ≤ lam * Vec4.dot r r
+
 inductive Method | svd | quaternion
   deriving DecidableEq, Repr
 
